@@ -31,6 +31,16 @@ fn main() {
     if args.len() >= 2 && args[1] == "as-truth-core" {
         truth::cli_def::truth_main("verif", &args[2..]);
     }
+    // glibc malloc returns every large block to the kernel by default; with 16 threads each creating
+    // thousands of short-lived compiler contexts per second that costs 10x in page faults and mmap
+    // contention.  The tunables are read at process start, so re-exec once with them set.
+    if std::env::var_os("MALLOC_TRIM_THRESHOLD_").is_none() && matches!(args.get(1).map(|s| s.as_str()), Some("run") | Some("replay")) {
+        use std::os::unix::process::CommandExt;
+        let err = std::process::Command::new("/proc/self/exe").args(&args[1..])
+            .env("MALLOC_MMAP_THRESHOLD_", "4294967296").env("MALLOC_TRIM_THRESHOLD_", "4294967296").env("MALLOC_TOP_PAD_", "268435456")
+            .exec();
+        eprintln!("re-exec failed ({err}); continuing without malloc tunables");
+    }
     install_panic_hook();
     std::env::remove_var("TRUTH_MAP_PATH");
     std::env::set_var("RUST_BACKTRACE", "0");
